@@ -93,9 +93,10 @@ type op struct {
 type event struct {
 	at   time.Duration
 	seq  uint64
-	kind string // arrive|cancel|start|wake
+	kind string // arrive|cancel|start|wake|fn
 	pkt  int
 	call int
+	fn   func(at time.Duration)
 }
 
 type evHeap []event
@@ -461,6 +462,8 @@ func (w *World) fireDue(now time.Duration) (woke bool) {
 			w.startCall(e.call)
 			woke = true
 		case "wake":
+		case "fn":
+			e.fn(e.at)
 		}
 	}
 	return woke
